@@ -238,7 +238,11 @@ def run():
             def same(x, y):
                 return all(a == b or (l.startswith('OFF') and b == 'unknown') for l, a, b in zip(t['bat'], x, y))
             if ops[k]['op'] == 'vanish':
-                ok1 = all(r == a or r == b for r, a, b in zip(R1, A[0], B[0]))
+                # a killed vanish leaves a subset of its targets gone and nothing else: every per-id / per-address /
+                # per-offset line equals the state before or the state after; aggregate lines (entry counts, query
+                # answers) of a half-done vanish are legitimately in between and are not compared line-wise
+                ok1 = all(r == a or r == b for l, r, a, b in zip(t['bat'], R1, A[0], B[0])
+                          if l.split(' ')[0] not in ('STA', 'FND', 'FRP', 'FPR'))
                 if not ok1:
                     c.violation('oracle', 'vanish killed at %s #%d: the reopened store is not between the states before and after' % (t['point'], t['n']), rep)
                 else:
